@@ -49,6 +49,11 @@ PROGRAMS = [
     "with (a as b,\n      c as d):  # c1\n    pass",
     "if a:\n    pass\n\n\n# c1\n\nelse:  # c2\n    # c3\n    pass  # c4",
     "d = {\n    'k': v,  # c1\n    **o,\n}\nw = x if y else (z\n    )",
+    # 40-43: shapes asked for by seeded regressions
+    "try:\n    a\nexcept* E as e:\n    b\nexcept* (F, G):\n    c",
+    "async with u: pass\nasync with a as b, c: pass",
+    "while c: a; b\nfor i in j: k",
+    "if x: a = 1\nelif y: b = 2\nelse: c = 3",
 ]
 
 for _p in PROGRAMS:
